@@ -21,6 +21,7 @@ def c07_spaces(tier):
         sp.append(("a2:1pos,n<=3,L<=3,carriers", H(0, 3), ["x"], (0, 1), 2, 3, False, "all+single", ("cn",), ("self", "variant", "mixin")))
         sp.append(("v:1pos,n<=3,L<=3,cnv", H(1, 3), ["x"], (0,), 2, 3, False, "cnv", ("cnv",), ("plain",)))
         sp.append(("b:2pos,n<=2,L<=3,prio", H(0, 2), ["xy"], (0, 1), 1, 3, False, "all+single", ("cn",), ("plain",)))
+        sp.append(("v2:2pos,n<=2,L<=2,cnv2", H(1, 2), ["xy"], (0,), 2, 2, False, "cnv", ("cnv2",), ("plain",)))
         sp.append(("c:2pos,n=4,L=3,distinct", H(4, 4), ["xy"], (0,), 3, 3, True, "all", ("cn",), ("plain",)))
         sp.append(("k:kw,n<=1,L<=3", H(0, 1), ["x", "x*k", "xy"], (0, 1), 1, 3, False, "all", ("cn",), ("plain",)))
     else:
@@ -29,6 +30,7 @@ def c07_spaces(tier):
         sp.append(("A2:1pos,n<=4,L<=3,carriers", H(0, 4), ["x"], (0, 1), 2, 3, False, "all+single", ("cn", "next"), ("variant", "mixin")))
         sp.append(("V:1pos,n<=4,L<=3,cnv", H(1, 4), ["x"], (0, 1), 2, 3, False, "cnv", ("cnv",), ("plain",)))
         sp.append(("B:2pos,n<=3,L<=3,prio", H(0, 3), ["xy"], (0, 1), 1, 3, False, "all+single", ("cn", "next"), ("plain",)))
+        sp.append(("V2:2pos,n<=3,L<=3,cnv2", H(1, 3), ["xy"], (0, 1), 2, 3, False, "cnv", ("cnv2",), ("plain", "self")))
         sp.append(("C:2pos,n=4,L=3,distinct", H(4, 4), ["xy"], (0,), 3, 3, True, "all+single", ("cn",), ("plain",)))
         sp.append(("K:kw,n<=2,L<=3", H(0, 2), ["x", "x*k", "xy"], (0, 1), 1, 3, False, "all+single", ("cn",), ("plain",)))
     return sp
@@ -46,7 +48,7 @@ def masks_for(L, kind, flavour, h):
         return out
     if kind == "cnv":
         # one method re-dispatches on another value; handled by the caller (needs the value)
-        return [tuple("cnv" if i == j else "plain" for i in range(L)) for j in range(L)]
+        return [tuple(flavour if i == j else "plain" for i in range(L)) for j in range(L)]
     raise core.HarnessError(kind)
 
 
@@ -62,7 +64,7 @@ def iter_cases(tier, shard, nshards):
                         continue
                     for mask in masks_for(len(descs), mkind, flavour, h):
                         for carrier in carriers:
-                            vs = h.type_names if flavour == "cnv" else [None]
+                            vs = h.type_names if flavour == "cnv" else list(itertools.product(h.type_names, repeat=2)) if flavour == "cnv2" else [None]
                             for v in vs:
                                 if idx % nshards == shard:
                                     if calls is None:
@@ -148,7 +150,7 @@ def make_mspecs(descs, mask, carrier, v):
     for m in ms:
         if carrier == "self":
             m["shape"] = "self:S:0 " + m["shape"]
-        if m.get("body") == "cnv":
+        if m.get("body") in ("cnv", "cnv2"):
             m["env"] = {"__v": v}
     return ms
 
@@ -159,6 +161,8 @@ def check_case(h, mspecs, carrier, calls, acc, space):
     for m in real:
         if m.get("body") == "cnv":
             m["env"] = {"__v": h.instances[m["env"]["__v"]]}
+        elif m.get("body") == "cnv2":
+            m["env"] = {"__v": tuple(h.instances[x] for x in m["env"]["__v"])}
     eff = effective_mspecs(real, carrier)
     if eff is None:
         if acc is not None:
@@ -166,7 +170,7 @@ def check_case(h, mspecs, carrier, calls, acc, space):
         return []
     ref = RefOvld(eff, StaticSem(h.classes))
     fn, log = build(h, real, carrier)
-    fresh_each = any(m.get("body") == "cnv" for m in mspecs)
+    fresh_each = any(m.get("body") in ("cnv", "cnv2") for m in mspecs)
     for args_n, kw_n in calls:
         if fresh_each:
             # a type tuple first seen through call_next behaves differently from a warmed one:
@@ -187,7 +191,7 @@ def check_case(h, mspecs, carrier, calls, acc, space):
             disc = f"{rkind}->{okind}"
         elif tuple(otrace) != tuple(rtrace):
             disc = "chain-differs"
-        elif len(set(otrace)) != len(otrace) and not any(m.get("body") == "cnv" for m in mspecs):
+        elif len(set(otrace)) != len(otrace) and not any(m.get("body") in ("cnv", "cnv2") for m in mspecs):
             disc = "method-visited-twice"
         if acc is not None:
             acc.count("evaluations")
